@@ -435,10 +435,13 @@ def hom_menu(n, kind):
         "lie.hom.block_include": (H.block_include(n + 2), lambda M: _block_include(M, n + 2), 1),
         "lie.hom.slc_to_slr": (H.slc_to_slr(), O.real_block_form, 1),
     }
+    dt = np.dtype(complex if kind == "complex" else float)
     if n <= 3:
         menu["lie.hom.gln_adjoint"] = (H.gln_adjoint(), O.gln_adjoint, 2)
+        menu["lie.hom.gln_adjoint(dtype)"] = (H.gln_adjoint(dtype=dt), O.gln_adjoint, 2)
     if 2 <= n <= 3:
         menu["lie.hom.sln_adjoint"] = (H.sln_adjoint(), O.sln_adjoint, 2)
+        menu["lie.hom.sln_adjoint(dtype)"] = (H.sln_adjoint(dtype=dt), O.sln_adjoint, 2)
     if n == 2:
         for m in (2, 3, 4, 5):
             menu["lie.hom.sl2_irrep(%d)" % m] = (H.sl2_irrep(m),
@@ -449,6 +452,7 @@ def hom_menu(n, kind):
 HOM_NAMES = ["identity", "kron", "inverse_transpose", "uses_inv_argument", "det",
              "entrywise_conjugate", "block_sum_with_dual", "lie.hom.block_include",
              "lie.hom.slc_to_slr", "lie.hom.gln_adjoint", "lie.hom.sln_adjoint",
+             "lie.hom.gln_adjoint(dtype)", "lie.hom.sln_adjoint(dtype)",
              "lie.hom.sl2_irrep(2)", "lie.hom.sl2_irrep(3)", "lie.hom.sl2_irrep(4)",
              "lie.hom.sl2_irrep(5)"]
 
@@ -469,6 +473,11 @@ def body_compose(case, ctx):
     lib, ref, degree = menu[name]
     ctx.label("hom=" + name, "compute_inverses=%s" % case["compute_inverses"])
     kw = {"compute_inverses": True} if case["compute_inverses"] else {}
+    if kw and name in ("lie.hom.gln_adjoint", "lie.hom.sln_adjoint"):
+        # finding (reported): without an explicit dtype the lie adjoints return dtype=object
+        # arrays, which numpy cannot invert
+        ctx.label("excluded:object-dtype-adjoint-inverted")
+        kw = {}
     d = rep.compose(lib, **kw)
     ctx.check(list(d.asym_gens()) == list(rep.asym_gens()), "compose keeps the generators")
     ctx.check(set(d.generators) == set(rep.generators), "compose keeps the inverse names")
@@ -911,6 +920,423 @@ def body_hyperbolic(case, ctx):
     finish(ctx, rep, case, guard, before, "HyperbolicRepresentation(rep)")
 
 
+
+# ---------------------------------------------------------------------------
+# 5. a chain of derivations leaves the parent alone
+DERIVATIONS = ["copy", "conjugate", "dual", "compose", "tensor", "symmetric_square", "subgroup",
+               "gln_adjoint", "sln_adjoint", "astype", "projective", "differential", "elements"]
+
+
+@st.composite
+def chain_case(draw):
+    c = draw(derived_case(max_dim=3, wlen=8, intdtype=False))
+    c["chain"] = draw(st.lists(st.integers(0, len(DERIVATIONS) - 1), min_size=2, max_size=8))
+    c["mutate_child"] = draw(st.booleans())
+    return c
+
+
+def body_parent_not_mutated(case, ctx):
+    from geometry_tools import projective
+    rep, L, mats, guard, before = start(case, ctx)
+    n = case["n"]
+    for w in case["words"]:
+        G.word_labels(ctx, w, L)
+    C = np.eye(n) + np.tril(np.ones((n, n)), -1)
+    for idx in case["chain"]:
+        what = DERIVATIONS[idx]
+        ctx.label("op=" + what)
+        child = None
+        if what == "copy":
+            child = Representation(rep)
+        elif what == "conjugate":
+            child = rep.conjugate(C)
+        elif what == "dual":
+            child = rep.dual()
+        elif what == "compose":
+            child = rep.compose(lambda M: M @ M)      # not a homomorphism; irrelevant here
+        elif what == "tensor":
+            child = rep.tensor_product(rep)
+        elif what == "symmetric_square":
+            child = rep.symmetric_square()
+        elif what == "subgroup":
+            child = rep.subgroup([wstr(case["words"][0]), case["names"][0]])
+        elif what == "gln_adjoint":
+            child = rep.gln_adjoint()
+        elif what == "sln_adjoint":
+            if n >= 2:
+                child = rep.sln_adjoint()
+        elif what == "astype":
+            child = rep.astype(np.dtype(complex))
+        elif what == "projective":
+            child = projective.ProjectiveRepresentation(rep)
+        elif what == "differential":
+            rep.differential(case["names"][0] + wstr(case["words"][0]))
+            rep.coboundary_matrix()
+        elif what == "elements":
+            rep.elements([wstr(w) for w in case["words"]])
+        if child is not None and case["mutate_child"]:
+            g = list(child.asym_gens())[0]
+            if what == "projective":
+                child[g] = projective.Transformation(np.eye(child.dim) * 3.0)
+            else:
+                child[g] = 3.0 * np.eye(child.dim)
+            ctx.label("child-mutated")
+        finish(ctx, rep, case, guard, before, what)
+
+
+# ---------------------------------------------------------------------------
+# 6. Fox calculus
+def fox_matrix(L, w, g):
+    """(D_g(w) evaluated under rho, error bound)"""
+    n = L.n
+    Dm = np.zeros((n, n), dtype=complex if any(np.iscomplexobj(m) for m in L.mat.values())
+                  else float)
+    b = 0.0
+    for c, pre in O.fox_terms(w, g):
+        P, bp = L.eval(pre)
+        _, br = L.eval(O.free_reduce(pre))
+        Dm = Dm + c * P
+        b += bp + br
+    return Dm, b + 1e-300
+
+
+@st.composite
+def fox_case(draw):
+    c = draw(G.rep_case(max_dim=4))
+    c["words"] = [draw(G.word(c["names"], 14, min_len=1)) for _ in range(2)]
+    c["words"] = [w if len(w) else [c["names"][0]] for w in c["words"]]
+    return c
+
+
+def body_fox(case, ctx):
+    rep, L, mats = G.build(case)
+    G.base_labels(ctx, case)
+    n, names = case["n"], case["names"]
+    k = len(names)
+    cob = np.asarray(rep.coboundary_matrix())
+    ctx.check(cob.shape == (n * k, n), "coboundary_matrix shape", got=cob.shape)
+    for i, g in enumerate(names):
+        ctx.close("coboundary block = I - rho(g)", cob[i * n:(i + 1) * n], np.eye(n) - L.mat[g],
+                  rtol=0, atol=1e-14 * max(1.0, L.nrm[g]), g=g)
+    rows = []
+    for w in case["words"]:
+        G.word_labels(ctx, w, L)
+        s = wstr(w)
+        d = as_num(rep.differential(s))
+        rows.append(d)
+        ctx.check(d.shape == (n, n * k), "differential shape", got=d.shape)
+        total = 0.0
+        for i, g in enumerate(names):
+            Dg, bg = fox_matrix(L, w, g)
+            blk = d[:, i * n:(i + 1) * n]
+            ctx.close("differential block = Fox derivative under rho", blk, Dg, rtol=0,
+                      atol=tol(bg, Dg), word=s, g=g)
+            single = as_num(rep.differential(s, generator=g))
+            ctx.check(np.array_equal(single, blk), "differential(w, generator=g) is the g block",
+                      word=s, g=g)
+            total += bg * (1.0 + L.nrm[g]) + O.norm2(Dg) * 4 * n * O.EPS * (1.0 + L.nrm[g])
+            # the formal derivative itself
+            fd = {k_: v for k_, v in W.fox_word_derivative(g, s).items() if v != 0}
+            want = {wstr(k_): v for k_, v in O.fox_reduced_dict(w, g).items()}
+            ctx.check(fd == want, "fox_word_derivative as an element of Z[F]", word=s, g=g, got=fd,
+                      want=want)
+        P, bp = L.eval(w)
+        ctx.close("fundamental formula: differential(w) @ coboundary = I - rho(w)", d @ cob,
+                  np.eye(n) - P, rtol=0, atol=tol(total + bp, P), word=s)
+    both = as_num(rep.differentials([wstr(w) for w in case["words"]]))
+    ctx.check(np.array_equal(both, np.concatenate(rows, axis=0)),
+              "differentials(words) stacks the differentials")
+
+
+def _diag_conj(C, d):
+    return C @ np.diag(d) @ np.linalg.inv(C)
+
+
+@st.composite
+def relator_case(draw):
+    fam = draw(st.sampled_from(["abelian", "dihedral", "cyclic", "free"]))
+    if fam == "abelian":
+        n = draw(st.integers(1, 4))
+        k = draw(st.integers(2, 3))
+        C = np.array(draw(gen.wellcond_matrix(n, maxfactor=2.0)))
+        mats = [_diag_conj(C, [draw(st.sampled_from([-2.0, -1.0, 0.5, 1.0, 1.5, 2.0, 3.0]))
+                               for _ in range(n)]) for _ in range(k)]
+        names = list("abc"[:k])
+        rels = []
+        for _ in range(draw(st.integers(1, 3))):
+            u = draw(G.word(names, 4, min_len=1)) or ["a"]
+            v = draw(G.word(names, 4, min_len=1)) or ["b"]
+            x = draw(G.word(names, 3))
+            rels.append(x + u + v + O.inverse_word(u) + O.inverse_word(v) + O.inverse_word(x))
+    elif fam == "dihedral":
+        n, m = 2, draw(st.integers(2, 7))
+        th = np.pi / m
+        mats = [np.array([[1.0, 0.0], [0.0, -1.0]]),
+                np.array([[np.cos(2 * th), np.sin(2 * th)], [np.sin(2 * th), -np.cos(2 * th)]])]
+        names = ["a", "b"]
+        rels = [["a", "a"], ["b", "b"], ["a", "b"] * m]
+        if draw(st.booleans()):
+            rels.append(["b", "A"] * m)
+    elif fam == "cyclic":
+        n, m = 2, draw(st.integers(1, 9))
+        th = 2 * np.pi * draw(st.integers(1, m)) / m
+        mats = [np.array([[np.cos(th), -np.sin(th)], [np.sin(th), np.cos(th)]]),
+                np.array(draw(gen.wellcond_matrix(2, maxfactor=2.0)))]
+        names = ["a", "b"]
+        rels = [["a"] * m, ["b"] + ["A"] * m + ["B"]]
+    else:
+        c0 = draw(G.rep_case(max_dim=3, kinds=("real", "complex"), min_gens=1, max_gens=3))
+        names = c0["names"]
+        rels = []
+        for _ in range(draw(st.integers(1, 3))):
+            u = draw(G.word(names, 5, min_len=1)) or [names[0]]
+            rels.append(u + O.inverse_word(u))
+        c0.update(rels=rels, family=fam)
+        return c0
+    return dict(n=n, kind="real", names=names, intdtype=False, family=fam,
+                mats=[[[float(x) for x in row] for row in M] for M in mats], rels=rels)
+
+
+def body_cocycle(case, ctx):
+    n, names = case["n"], case["names"]
+    k = len(names)
+    rels = [wstr(r) for r in case["rels"]]
+    rep = Representation(relations=rels)
+    L = O.Letters()
+    for g, m in zip(names, case["mats"]):
+        M = G.decode(m, case["kind"])
+        rep[g] = M.copy()
+        L.assign(g, M)
+    G.base_labels(ctx, case)
+    ctx.label("family=" + case["family"], "relators=%d" % len(rels))
+    ctx.check(list(rep.relations) == rels, "relations are stored")
+    coc = as_num(rep.cocycle_matrix())
+    cob = np.asarray(rep.coboundary_matrix())
+    ctx.check(coc.shape == (n * len(rels), n * k), "cocycle_matrix shape", got=coc.shape)
+    prod = coc @ cob
+    for j, r in enumerate(case["rels"]):
+        G.word_labels(ctx, r, L)
+        P, bp = L.eval(r)
+        total = bp
+        for g in names:
+            Dg, bg = fox_matrix(L, r, g)
+            total += bg * (1.0 + L.nrm[g]) + O.norm2(Dg) * 4 * n * O.EPS * (1.0 + L.nrm[g])
+        defect = float(np.max(np.abs(np.eye(n) - P)))
+        if defect > 16 * bp + 1e-12:
+            raise HarnessError("generated relator is not satisfied: %r defect %g" % (wstr(r), defect))
+        ctx.small("cocycle_matrix @ coboundary_matrix = 0 on satisfied relators",
+                  prod[j * n:(j + 1) * n], tol(total, np.eye(n)), relator=wstr(r))
+    # a copy keeps the relations, so its cocycle matrix is the same
+    cp = Representation(rep)
+    ctx.check(list(cp.relations) == rels, "copy keeps the relations")
+    ctx.check(np.array_equal(as_num(cp.cocycle_matrix()), coc), "copy has the same cocycle matrix")
+
+
+# ---------------------------------------------------------------------------
+# 7. histories of assignments
+@st.composite
+def history_case(draw):
+    n = draw(st.integers(1, 4))
+    kind = draw(st.sampled_from(["real", "int", "complex"]))
+    pool = [draw(G.matrix(n, kind)) for _ in range(draw(st.integers(2, 4)))]
+    steps = []
+    for _ in range(draw(st.integers(1, 10))):
+        op = draw(st.sampled_from(["set", "set", "set", "set_upper", "set_upper", "set_method",
+                                   "set_noinv", "bad_dim", "bad_name"]))
+        steps.append(dict(op=op, name=draw(st.integers(0, 2)), mat=draw(st.integers(0, 7)),
+                          probe=draw(st.lists(st.integers(0, 11), min_size=0, max_size=8))))
+    return dict(n=n, kind=kind, pool=pool, steps=steps)
+
+
+def body_history(case, ctx):
+    n, kind = case["n"], case["kind"]
+    pool = [G.decode(m, kind) for m in case["pool"]]
+    rep = Representation()
+    model = {}            # name -> (matrix, exact?)
+    ctx.label("kind=" + kind, "n=%d" % n)
+    assigned = 0
+    seen = set()
+    for step in case["steps"]:
+        op = step["op"]
+        name = "abc"[step["name"] % 3]
+        M = pool[step["mat"] % len(pool)]
+        ctx.label("op=" + op)
+        if op in ("set", "set_method"):
+            if op == "set":
+                rep[name] = M.copy()
+            else:
+                rep.set_generator(name, M.copy())
+            model[name] = (M, True)
+            model[O.swap(name)] = (np.linalg.inv(M), False)
+        elif op == "set_upper":
+            rep[name.upper()] = M.copy()
+            model[name.upper()] = (M, True)
+            model[name] = (np.linalg.inv(M), False)
+        elif op == "set_noinv":
+            rep.set_generator(name, M.copy(), compute_inverse=False)
+            model[name] = (M, True)
+        elif op == "bad_dim":
+            if not model:
+                continue
+            try:
+                rep[name] = np.eye(n + 1)
+                ctx.fail("a matrix of another dimension was accepted")
+            except ValueError:
+                pass
+        elif op == "bad_name":
+            bad = ["aB", "a*b", "(a)", "12", ""][step["mat"] % 5]
+            try:
+                rep[bad] = M.copy()
+                ctx.fail("an invalid generator name was accepted", name=bad)
+            except ValueError:
+                pass
+        if op in ("set", "set_method", "set_upper", "set_noinv"):
+            assigned += 1
+            if name in seen:
+                ctx.label("reassign")
+            seen.add(name)
+        # compare the whole state with the model
+        ctx.check(list(rep.generators) == list(model), "generator names (in assignment order)",
+                  got=list(rep.generators), want=list(model))
+        for g, (X, exact) in model.items():
+            got = np.asarray(rep.generators[g])
+            if exact:
+                ctx.check(np.array_equal(got, X), "stored matrix is the assigned one", g=g)
+            else:
+                c = cond_of(X)
+                ctx.close("stored inverse", got, X, rtol=0,
+                          atol=64 * n * O.EPS * c * O.norm2(X) + 1e-14, g=g)
+        if model:
+            ctx.check(rep.dim == n, "dim")
+            ctx.check(list(rep.asym_gens()) == [g for g in model if g == g.lower()], "asym_gens")
+            keys = list(model)
+            w = [keys[i % len(keys)] for i in step["probe"]]
+            P = np.eye(n, dtype=complex if kind == "complex" else float)
+            growth = 1.0
+            for x in w:
+                P = P @ model[x][0]
+                growth *= max(1.0, O.norm2(model[x][0]))
+            cmax = max(cond_of(X) for X, _ in model.values())
+            ctx.close("probe word after the step", np.asarray(rep[wstr(w)]), P, rtol=0,
+                      atol=64 * (len(w) + 1) * n * O.EPS * growth * cmax + 1e-13, word=wstr(w))
+            if len(w) >= 3:
+                ctx.label("probe-len>=3")
+    if assigned >= 3:
+        ctx.label("assignments>=3")
+
+
+def nt_history(labels):
+    return {"assignments>=3", "reassign"} <= set(labels)
+
+
+# ---------------------------------------------------------------------------
+# 8. multi-character generator names
+NAME_POOL = ["s0", "s1", "s2", "ab", "ba", "a", "x1", "x10", "g_1", "t12"]
+
+
+@st.composite
+def multichar_case(draw):
+    k = draw(st.integers(1, 3))
+    names = draw(st.lists(st.sampled_from(NAME_POOL), min_size=k, max_size=k, unique=True))
+    n = draw(st.integers(1, 4))
+    kind = draw(st.sampled_from(["real", "complex", "int"]))
+    c = dict(n=n, kind=kind, names=names, intdtype=False,
+             mats=[draw(G.matrix(n, kind)) for _ in range(k)])
+    c["words"] = [draw(G.word(names, 10)) for _ in range(3)]
+    c["parse_simple_false"] = draw(st.booleans())
+    c["C"] = draw(G.matrix(n, "real", 3.0))
+    return c
+
+
+def body_multichar(case, ctx):
+    from geometry_tools import projective
+    names, n = case["names"], case["n"]
+    psf = case["parse_simple_false"]
+    kw = {"parse_simple": False} if psf else {}
+    rep, L, mats = G.build(case, **kw)
+    G.base_labels(ctx, case)
+    ctx.label("parse_simple=False" if psf else "parse_simple=default")
+    if any(len(x) > 1 for x in names):
+        ctx.label("multichar")
+    if set("ab") & set(names) and ("ab" in names or "ba" in names):
+        ctx.label("name-is-concatenation-of-names")
+    guard = G.Guard(rep)
+    ctx.check(list(rep.asym_gens()) == names, "asym_gens", got=list(rep.asym_gens()))
+    ctx.check(set(rep.generators) == set(G.letters_of(names)), "inverse names are case-swapped",
+              got=sorted(rep.generators))
+    stars = []
+    for w in case["words"]:
+        G.word_labels(ctx, w, L)
+        got = np.asarray(rep[list(w)])
+        want, b = cmp_word(ctx, "rep[[names...]] vs harness product", got, L, w, case)
+        ctx.check(np.array_equal(np.asarray(rep.element(list(w))), got), "element(list) == rep[list]")
+        if len(w):
+            star = "*".join(w)
+            stars.append((star, got))
+            ctx.check(np.array_equal(np.asarray(rep.element(star, parse_simple=False)), got),
+                      "element(star string, parse_simple=False) == rep[list]", word=star)
+    if not psf:
+        el = np.asarray(rep.elements([list(w) for w in case["words"]]))
+        for i, w in enumerate(case["words"]):
+            ctx.check(np.array_equal(el[i], np.asarray(rep[list(w)])), "elements(list words)[i]",
+                      i=i)
+    if psf and stars:
+        el = np.asarray(rep.elements([s for s, _ in stars]))
+        for i, (s, got) in enumerate(stars):
+            ctx.check(np.array_equal(el[i], got),
+                      "elements(star strings)[i] on a parse_simple=False representation", word=s)
+    # derived representations built generator by generator keep names, flag and images
+    C = G.decode(case["C"], "real")
+    Ci = np.linalg.inv(C)
+    ev = lambda d, w: d[list(w)]
+    for what, d, f, deg, xc in [
+            ("copy", Representation(rep), lambda M: M, 1, 1.0),
+            ("dual", rep.dual(), lambda M: np.linalg.inv(M).T, 1, 1.0),
+            ("conjugate", rep.conjugate(C.copy()), lambda M: Ci @ M @ C, 1, cond_of(C) ** 2),
+            ("astype", rep.astype(np.dtype(complex)), lambda M: M.astype(complex), 1, 1.0),
+            ("compose", rep.compose(lambda M: np.kron(M, M)), lambda M: np.kron(M, M), 2, 1.0)] + (
+            [("gln_adjoint", rep.gln_adjoint(), O.gln_adjoint, 2, 1.0)] if n <= 2 else []):
+        ctx.check(list(d.generators) == list(rep.generators), what + " keeps multi-character names")
+        ctx.check(d.parse_simple == rep.parse_simple, what + " keeps parse_simple",
+                  got=d.parse_simple)
+        check_derived(ctx, case, L, d, f, what + "[[names...]] = f(rho(w))", degree=deg,
+                      extra_cond=xc, evaluate=ev)
+        if psf and stars:
+            s0 = stars[0][0]
+            ctx.check(np.array_equal(as_num(d.elements([s0]))[0], as_num(d[s0.split("*")])),
+                      what + ": elements(star string) on the derived representation")
+    p = projective.ProjectiveRepresentation(rep)
+    check_derived(ctx, case, L, p, lambda M: M, "ProjectiveRepresentation[[names...]]",
+                  extract=lambda T: np.asarray(T.matrix).T, evaluate=ev)
+    # subgroup: words are lists (default) or star strings (parse_simple=False)
+    sw = [w for w in case["words"] if len(w)] or [[names[0]]]
+    if psf:
+        sub = rep.subgroup(["*".join(w) for w in sw])
+    else:
+        sub = rep.subgroup([list(w) for w in sw])
+    for i, w in enumerate(sw):
+        want, b = L.eval(w)
+        g = "abc"[i]
+        got = np.asarray(sub[[g]])
+        ctx.close("subgroup generator = rho(word)", got, want, rtol=0, atol=tol(b, want))
+    # finding (reported): tensor_product / symmetric_square evaluate self[name] character
+    # by character and fail on multi-character names
+    if any(len(x) > 1 for x in names):
+        ctx.label("excluded:multichar-tensor-product")
+    else:
+        t = rep.tensor_product(rep)
+        for w in case["words"]:
+            P, b = L.eval(w)
+            ctx.close("tensor_product (single-character names here)", np.asarray(t[list(w)]),
+                      np.kron(P, P), rtol=0, atol=tol(4 * b * O.norm2(P) + 1e-13 * L.growth(w) ** 2,
+                                                      np.kron(P, P)))
+    guard.check(ctx, rep, "derivations with multi-character names")
+
+
+def nt_multichar(labels):
+    return "multichar" in labels and G.nontrivial(labels)
+
+
 LAWS = [
     Law("word_homomorphism", hom_case(), body_word_homomorphism, G.nontrivial, quick=150,
         thorough=1500, shards=(2, 8)),
@@ -943,4 +1369,14 @@ LAWS = [
         thorough=800, shards=(1, 4)),
     Law("derived_hyperbolic", hyperbolic_case(), body_hyperbolic, G.nontrivial, quick=80,
         thorough=800, shards=(1, 4)),
+    Law("parent_not_mutated", chain_case(), body_parent_not_mutated, G.nontrivial, quick=60,
+        thorough=600, shards=(1, 4)),
+    Law("fox_fundamental_formula", fox_case(), body_fox, G.nontrivial, quick=100, thorough=1000,
+        shards=(1, 4)),
+    Law("cocycle_annihilates_coboundary", relator_case(), body_cocycle, lambda l: "len>=3" in l,
+        quick=80, thorough=800, shards=(1, 4)),
+    Law("assignment_history", history_case(), body_history, nt_history, quick=150, thorough=1500,
+        shards=(1, 4)),
+    Law("multichar_names", multichar_case(), body_multichar, nt_multichar, quick=80, thorough=800,
+        shards=(1, 4)),
 ]
